@@ -45,6 +45,11 @@ def worker(unit, emit):
             emit.trace([{'kind': 'val', 'f': f, 'x': lib.cps(x), 'r': sl(r)}],
                        {'m': FORMATS[f], 'w': x, 'how': how, 'site': r['site'], 'outcome': r['cls'] or lib.from_cps(r['v'])})
             emit.count('val')
+            if f == 'isbn':      # the documented option convert=True: same accept set, ISBN-13 as result (clause A3)
+                r2 = lib.call(mod.validate, x, convert=True)
+                emit.trace([{'kind': 'valc', 'f': f, 'x': lib.cps(x), 'r': sl(r2)}],
+                           {'m': FORMATS[f], 'w': x, 'how': how + ' convert=True', 'site': r2['site'], 'outcome': r2['cls'] or lib.from_cps(r2['v'])})
+                emit.count('val')
         for b in bases:
             rec(b, 'corpus')
             try:
@@ -80,7 +85,7 @@ def worker(unit, emit):
                     symbols = [d for d in inputs.module_alphabet(mod) if not d.isalnum()][:6]
                     finals = '0123456789' + ('ABCDEFGHIJKLMNOPQRSTUVWXYZ' if c[-1].isalpha() else '')
                     for i in range(len(c) - 1):
-                        for d in symbols + rnd.sample(ALNUM, 2):
+                        for d in (list(ALNUM) if i < 2 and len(c) <= 14 else symbols + rnd.sample(ALNUM, 2)):     # prefixes (reserved / country codes) in full
                             if d == c[i]:
                                 continue
                             for z in finals:
@@ -301,7 +306,7 @@ def main():
             units.append(('block', f, blocks[i:i + (6 if quick else 40)], p))
     shards = chk.drive(units, worker)
     extra = run.merge_extra(shards)
-    rej = chk.validate('Trace_Formats', shards, env={'TABLE_FILE': tfile}, own_clauses={'A1', 'A2', 'B1'}, heap='3g')
+    rej = chk.validate('Trace_Formats', shards, env={'TABLE_FILE': tfile}, own_clauses={'A1', 'A2', 'A3', 'B1'}, heap='3g')
     chk.report(rej)
     # ---- Bitcoin (Base58Check with SHA-256 in TLA+, Bech32)
     items = bitcoin_inputs(rnd, quick)
